@@ -7,23 +7,23 @@ open Amqp.Gen.FrameK
 
 /-- pieces of the middle frames are all exactly `B - p2len` bytes, what is left
     fits the last frame, and nothing is lost -/
-theorem middle_spec (B p2len : Nat) (hlt : p2len < B) : ∀ (fuel : Nat) (rest : Bytes), rest.length ≤ fuel →
-    (∀ c ∈ (middle B p2len fuel rest).1, c.length = B - p2len) ∧
-    p2len + (middle B p2len fuel rest).2.length ≤ B ∧
-    (middle B p2len fuel rest).1.flatten ++ (middle B p2len fuel rest).2 = rest := by
+theorem middleLoop_spec (B p2len : Nat) (hlt : p2len < B) : ∀ (fuel : Nat) (rest : Bytes), rest.length ≤ fuel →
+    (∀ c ∈ (middleLoop B p2len fuel (p2len + rest.length) rest).1, c.length = B - p2len) ∧
+    p2len + (middleLoop B p2len fuel (p2len + rest.length) rest).2.length ≤ B ∧
+    (middleLoop B p2len fuel (p2len + rest.length) rest).1.flatten ++ (middleLoop B p2len fuel (p2len + rest.length) rest).2 = rest := by
   intro fuel
   induction fuel with
   | zero =>
     intro rest h
     have : rest = [] := List.length_eq_zero_iff.mp (by omega)
     subst this
-    simp [middle]; omega
+    simp [middleLoop]; omega
   | succ fuel ih =>
     intro rest h
-    unfold middle
-    by_cases hc : encode_transfer.cond_while_0 p2len rest.length B = true
+    unfold middleLoop
+    by_cases hc : encode_transfer.cond_while_0 (p2len + rest.length) B = true
     · have hgt : p2len + rest.length > B := by simpa [encode_transfer.cond_while_0] using hc
-      simp only [hc, if_true, encode_transfer.let_split_index_1, psub64]
+      simp only [hc, if_true, encode_transfer.let_split_index_1, psub64, encode_transfer.assign_remaining_bytes_0]
       have hk : B - p2len ≤ rest.length := by omega
       have hdrop : (rest.drop (B - p2len)).length ≤ fuel := by
         simp [List.length_drop]; omega
@@ -38,6 +38,14 @@ theorem middle_spec (B p2len : Nat) (hlt : p2len < B) : ∀ (fuel : Nat) (rest :
     · have hle : p2len + rest.length ≤ B := by
         simp [encode_transfer.cond_while_0] at hc; omega
       simp [hc, hle]
+
+theorem middle_spec (B p2len : Nat) (hlt : p2len < B) (fuel : Nat) (rest : Bytes) (h : rest.length ≤ fuel) :
+    (∀ c ∈ (middle B p2len fuel rest).1, c.length = B - p2len) ∧
+    p2len + (middle B p2len fuel rest).2.length ≤ B ∧
+    (middle B p2len fuel rest).1.flatten ++ (middle B p2len fuel rest).2 = rest := by
+  unfold middle
+  simp only [encode_transfer.let_remaining_bytes_1]
+  exact middleLoop_spec B p2len hlt fuel rest h
 
 /-! ### `split` -/
 
